@@ -326,8 +326,9 @@ def job_quadrature(seq):
             arr = A.MultiAntennaArray(2, sample_rate=1024.0, num_pols=1, delays=[0, 1], seed=3)
             st = arr.antennas[0].x
             other = arr.antennas[1].x
-            for c, v in zip(seq, vs):
-                (st if c == 's' else arr.bg_x).add_noise(0, v)
+            for i_, (c, v) in enumerate(zip(seq, vs)):
+                # (noise sources may ride on a non-zero mean: a DC offset is not noise power)
+                (st if c == 's' else arr.bg_x).add_noise(Sym(z3.Real(f'v_mean_{i_}')), v)
             return st.get_total_noise_std(), other.get_total_noise_std()
         leaf = core.run_single(run, pre)
     tot, tot_other = leaf.value
@@ -425,8 +426,8 @@ def job_quadrature_pols(order):
         def run():
             arr = A.MultiAntennaArray(2, sample_rate=1024.0, num_pols=2, delays=[0, 1], seed=3)
             tgt = {'X': arr.bg_x, 'Y': arr.bg_y, 'a': arr.antennas[0].x, 'b': arr.antennas[1].y}
-            for c, v in zip(order, vs):
-                tgt[c].add_noise(0, v)
+            for i_, (c, v) in enumerate(zip(order, vs)):
+                tgt[c].add_noise(Sym(z3.Real(f'v_mean_{i_}')), v)
             return [[ant.x.get_total_noise_std(), ant.y.get_total_noise_std()] for ant in arr.antennas]
         leaf = core.run_single(run, pre)
     tot = leaf.value
@@ -447,8 +448,8 @@ def replay_quadrature_pols(p):
     arr = an.MultiAntennaArray(2, sample_rate=1024.0, num_pols=2, delays=[0, 1], seed=3)
     tgt = {'X': arr.bg_x, 'Y': arr.bg_y, 'a': arr.antennas[0].x, 'b': arr.antennas[1].y}
     vs = [1.5, 0.7, 2.0, 0.3][:len(p['order'])]
-    for c, v in zip(p['order'], vs):
-        tgt[c].add_noise(0, v)
+    for i_, (c, v) in enumerate(zip(p['order'], vs)):
+        tgt[c].add_noise((3.0, -1.5, 0.0, 7.0)[i_], v)
     msgs = []
     for ai, ant in enumerate(arr.antennas):
         for pi, (pol, st) in enumerate(zip('XY', (ant.x, ant.y))):
@@ -663,7 +664,7 @@ def replay_quadrature(p):
     st, other = arr.antennas[0].x, arr.antennas[1].x
     vs = [1.5, 0.7, 2.0][:len(p['seq'])]
     for c, v in zip(p['seq'], vs):
-        (st if c == 's' else arr.bg_x).add_noise(0, v)
+        (st if c == 's' else arr.bg_x).add_noise(2.5, v)
     want = np.sqrt(sum(v * v for v in vs))
     want_o = np.sqrt(sum(v * v for c, v in zip(p['seq'], vs) if c == 'b'))
     bad = not (np.isclose(st.get_total_noise_std(), want) and np.isclose(other.get_total_noise_std(), want_o))
